@@ -216,18 +216,21 @@ class Run:
         with open(os.path.join(EVIDENCE_DIR, "%s.json" % self.prop), "w") as fh:
             json.dump(ev, fh, indent=1)
 
-        print("== %s tier=%s: %d obligations, %d instances, %d violations, %d known findings, %d/%d fixture self-tests ok (%.1fs)" % (
-            self.prop, self.tier, n_ob, len(all_inst), len(violations), len(matched_known),
-            len(self.selftests) - len(broken), len(self.selftests), time.time() - self.t0))
-        for o in self.obligations:
-            bad = [i for i in o.instances if not i.ok]
-            print("  %-7s %-3s %3d inst  %s" % (o.oid, "ok" if not bad else "BAD", len(o.instances), o.title))
-        for l in lines:
-            print(l)
-        if broken:
-            for s in broken:
-                print("CHECKER-BROKEN fixture self-test %s: fired=%s expected=%s" % (s["name"], s["fired"], s["expected"]))
-        sys.stdout.flush()
+        try:
+            print("== %s tier=%s: %d obligations, %d instances, %d violations, %d known findings, %d/%d fixture self-tests ok (%.1fs)" % (
+                self.prop, self.tier, n_ob, len(all_inst), len(violations), len(matched_known),
+                len(self.selftests) - len(broken), len(self.selftests), time.time() - self.t0))
+            for o in self.obligations:
+                bad = [i for i in o.instances if not i.ok]
+                print("  %-7s %-3s %3d inst  %s" % (o.oid, "ok" if not bad else "BAD", len(o.instances), o.title))
+            for l in lines:
+                print(l)
+            if broken:
+                for s in broken:
+                    print("CHECKER-BROKEN fixture self-test %s: fired=%s expected=%s" % (s["name"], s["fired"], s["expected"]))
+            sys.stdout.flush()
+        except BrokenPipeError:
+            pass        # the reader went away (e.g. `| head`): the verdict is the exit code
         if violations:
             return 1
         if broken:
